@@ -789,7 +789,7 @@ func TestVerifC20(t *testing.T) {
 	} else {
 		cases = append(cases, corpus...)
 		r := vNewRand(vSeed())
-		n := vN(120, 1200)
+		n := vN(100, 1200)
 		for i := 0; i < n; i++ {
 			cases = append(cases, c20Gen(r.Fork()))
 		}
